@@ -27,14 +27,14 @@ INV_PROP = {
 EV_PROP = {
     "SendCall": "C09", "Send": "C09", "TrySend": "C09", "SendRet": "C09",
     "Take": "C06", "TakeEmpty": "C06", "Call": "C06", "Ret": "C06",
-    "FlushReq": "C07", "Fired": "C07", "FlushRet": "C07",
+    "FlushReq": "C07", "Fired": "C07", "FlushRet": "C07", "EmptyReq": "C08", "EmptyFired": "C08",
     "CallerPanicked": "C08", "Wait": "C08", "Exit": "C08+C06", "End": "C08+C06", "Closing": "C08", "Closed": "C08", "Reset": "C08",
 }
 ACTIONS = ["Send", "TrySend", "WhenEmpty", "SendWake", "WhenFlushed", "FlushRet", "DropSender",
            "RecvTake", "IdleWake", "AttemptEnd", "RetryWake"]
 
 QUICK = ["q1", "q2", "q3", "q4", "q5", "kill"]
-QUICK_EVERY = {"q1": 2, "q2": 5, "q3": 1, "q4": 1, "q5": 1, "kill": 3}     # quick: seeded sample of the transitions
+QUICK_EVERY = {"q1": 2, "q2": 5, "q3": 1, "q4": 2, "q5": 1, "kill": 3}     # quick: seeded sample of the transitions
 THOROUGH = ["q1", "q2", "q3", "q4", "q5", "kill", "t3", "t1", "t2", "t1sim", "t2sim"]
 SIM_BEHAVIOURS = 6000     # per worker
 NSHARDS = 12
@@ -123,10 +123,11 @@ def run(ctx, prop):
 
     # ------------------------------------------------------------------ M: liveness (C08)
     if prop == "C08" or not ctx.quick:
-        r = ctx.tlc("MCBatcher", "Batcher_live.cfg", workers=8, timeout=1800, label="live")
-        if r.violated:
-            report("C08", "Batcher.tla liveness violated (%s)" % r.violated,
-                   {"kind": "tlc-counterexample", "counterexample": r.counterexample[:80]})
+        for lc in ("live", "live2"):
+            r = ctx.tlc("MCBatcher", "Batcher_%s.cfg" % lc, workers=8, timeout=1800, label=lc)
+            if r.violated:
+                report("C08", "Batcher.tla liveness violated (%s, %s)" % (r.violated, lc),
+                       {"kind": "tlc-counterexample", "counterexample": r.counterexample[:80]})
 
     # ------------------------------------------------------------------ M + S
     bindir = ctx.cargo_build("vh_batcher", bins=["batcher_replay", "batcher_stress"])
@@ -154,7 +155,7 @@ def run(ctx, prop):
                 and not (a == "TrySend" and name in ("t3", "q4", "q5"))
                 and not (a == "RetryWake" and name == "q4" and False)]
         if name == "q4":
-            must.append("CbReturn")
+            must += ["CbReturn", "WhenEmptyCb"]
         if name == "q5":
             must = [a for a in must if a not in ("WhenFlushed", "FlushRet")]
         if not sim:
